@@ -33,6 +33,8 @@ The loader applies these rewrites, each of which preserves behaviour exactly, be
  K12 `a, b = x, y` (plain names on the left, as many values on the right, no value mentions a target) -> `a = x; b = y`.
  K13 `f(x, **opts)` with `opts` a local bound once to a dict display of identifier keys and literal / reference values
      (possibly spreading another such dict), never mutated -> `f(x, k1=v1, k2=v2)`.
+ K14 `(lambda x: E)(a)` (a lambda applied on the spot to plain positional arguments, as left behind by K8 when a table row
+     holds a lambda) -> E with x replaced by a.
  K3  `not (a == b)` -> `a != b`, `not (a != b)` -> `a == b`, `not (a is b)` -> `a is not b`, `not (a in b)` -> `a not in b`
      (and the inverses `not (a is not b)`, `not (a not in b)`), for single-operator comparisons.
 
@@ -428,8 +430,13 @@ def _is_row(e):
     if _is_literal(e):
         return True
     if isinstance(e, (ast.Tuple, ast.List)) and e.elts:
-        return all(_is_literal(x) or _is_ref(x) or _is_row(x) for x in e.elts)
+        return all(_is_literal(x) or _is_ref(x) or _is_row(x) or isinstance(x, ast.Lambda) or _is_text(x) for x in e.elts)
     return False
+
+
+def _is_text(e):
+    """an f-string over references (a message)"""
+    return isinstance(e, ast.JoinedStr) and all(isinstance(v, ast.Constant) or (isinstance(v, ast.FormattedValue) and _is_ref(v.value) and v.format_spec is None) for v in e.values)
 
 
 def _once_bound_literals(scope_body, whole):
@@ -508,6 +515,25 @@ def _copy(node):
         if hasattr(node, a):
             setattr(new, a, getattr(node, a))
     return new
+
+
+class _Beta(ast.NodeTransformer):
+    def __init__(self, count):
+        self.count = count
+
+    def visit_Call(self, node):
+        self.generic_visit(node)
+        f = node.func
+        if isinstance(f, ast.Lambda) and not node.keywords and not any(isinstance(a, ast.Starred) for a in node.args):
+            a = f.args
+            if not (a.vararg or a.kwarg or a.kwonlyargs or a.defaults or a.posonlyargs) and len(a.args) == len(node.args) and all(_is_ref(x) or _is_literal(x) for x in node.args):
+                params = [q.arg for q in a.args]
+                inner_binds = {y.arg for y in ast.walk(f.body) if isinstance(y, ast.arg)} | {t.id for c in ast.walk(f.body) if isinstance(c, ast.comprehension) for t in ast.walk(c.target) if isinstance(t, ast.Name)}
+                arg_names = {y.id for x in node.args for y in ast.walk(x) if isinstance(y, ast.Name)}
+                if not (inner_binds & (set(params) | arg_names)):
+                    self.count["K14"] = self.count.get("K14", 0) + 1
+                    return ast.copy_location(_Subst(dict(zip(params, node.args))).visit(_copy(f.body)), node)
+        return node
 
 
 def _simplify_iteration(stmts, temps):
@@ -977,6 +1003,8 @@ def canonicalise(tree):
     module_tables = _once_bound_literals(tree.body, tree)
     for fn in [n for n in ast.walk(tree) if isinstance(n, (ast.FunctionDef, ast.AsyncFunctionDef))]:
         _unroll_table_loops(fn, module_tables, count)
+    if count.get("K8"):
+        _Beta(count).visit(tree)
     # K13: keyword dictionaries written out
     for fn in [n for n in ast.walk(tree) if isinstance(n, (ast.FunctionDef, ast.AsyncFunctionDef))]:
         _spread_keyword_dicts(fn, count)
